@@ -369,6 +369,36 @@ func main() {
 				reset()
 			})
 		}
+		// texts whose length is exactly limit-1, limit, limit+1, limit+2 (with and without tag): the limit applies to the
+		// text as given, whatever the helper strips from it
+		for _, ml := range []int{7, 8, 9, 16} {
+			ml := ml
+			r.Phase(fmt.Sprintf("string helpers with sem.MaxInputLength=%d: all pairs of valid-shaped texts of length limit-1..limit+2 (tag and version form, pre-release or build tail)", ml), "complete over the text set", func() {
+				var ts []string
+				for l := ml - 1; l <= ml+2; l++ {
+					for _, head := range []string{"v1.0.0-", "1.0.0-", "v1.0.0+", "1.0.0+", "v0.0.", "0.0."} {
+						if l > len(head) {
+							fill := "a"
+							if strings.HasSuffix(head, ".") {
+								fill = "1"
+							}
+							ts = append(ts, head+strings.Repeat(fill, l-len(head)))
+						}
+					}
+				}
+				ts = append(ts, "v1.0.0", "1.0.0")
+				sem.MaxInputLength = ml
+				curLimit = ml
+				r.Parallel(int64(len(ts)), 1, func(w *mc.W, i int64) {
+					for j := range ts {
+						w.Point()
+						w.NonTrivial()
+						pH.Do(w, helperArg{A: mc.Bin(ts[i]), B: mc.Bin(ts[j]), Limit: &ml})
+					}
+				})
+				reset()
+			})
+		}
 		for custom := 1; custom <= 2; custom++ {
 			custom := custom
 			r.Phase(fmt.Sprintf("string helpers with a user-installed sem.ComparePreRelease (#%d): every helper must still return what comparing the parsed values returns", custom), "complete over the text set", func() {
